@@ -32,6 +32,18 @@ def run(ctx):
     pri = ctx.load_traces(ctx.path("priq.ndjson"))
     rj = ctx.validate(fam, "Queue_Trace", "Queue_Trace.cfg", lst, label="list-queues", chunk=40000)
     rj += ctx.validate(fam, "PriQueue_Trace", "PriQueue_Trace.cfg", pri, label="priq", chunk=40000)
+    # 5. overlapping calls must still be explained by SOME order of them: {close | try-close | try-clear}
+    #    racing 1-3 adds on empty / one-item queues (the C13 executor: calls released together by a spin
+    #    barrier, global quiescence, then a sequential observation of contents and flags), validated by
+    #    QueueWake_Trace, which compares every reply with the order TLC chooses
+    b13 = ctx.go_build("c13")
+    ctx.harness(b13, ["-out", ctx.path("races.ndjson"), "-pout", ctx.path("x1.ndjson"),
+                      "-stress", ctx.path("x2.ndjson"), "-pstress", ctx.path("x3.ndjson"), "-seed", ctx.seed,
+                      "-rand", 0, "-prand", 0, "-race", ctx.q(600, 3000), "-ctlonly"],
+                traces=[ctx.path("races.ndjson")])
+    races = ctx.load_traces(ctx.path("races.ndjson"))
+    rj += ctx.validate(fam, "QueueWake_Trace", "QueueWake_Trace.cfg", races, label="races", chunk=40000)
+    ctx.extra["race_traces"] = len(races)
     ctx.judge(rj)
     ctx.extra["plans"] = len(plans) + len(pplans)
     ctx.extra["list_queue_traces"] = len(lst)
@@ -52,6 +64,8 @@ def run(ctx):
         "list-queue capacities 0 (unbounded) and 1..5",
         "on a closed lane that also holds its capacity either refusal (closed / full) is accepted; "
         "TryClose on a closed non-empty queue may answer either way (state unchanged)",
+        "race rounds (step 5) are executed by the C13 harness and judged by QueueWake_Trace: the calls of a "
+        "round are applied in any order, every reply and the final drain / accessors must fit that order",
         "q.Q / priq expose no IsClosed: their state is bound through replies and the final drain only",
     ]
     return ctx.finish(
